@@ -611,8 +611,9 @@ func lexInsideTag(l *lexer) stateFn {
 		// the single-character symbols
 		l.emit(arithmeticItemsBySymbol[string(r)])
 	case r == '>', r == '!', r == '<', r == '=' && l.peek() == '=':
-		// 1 or 2 character symbols
-		l.accept("*/%+-=!<>|&?:")
+		// 1 or 2 character symbols: > >= < <= != ==.  Nothing but '=' continues
+		// them: $a<-1 is $a < -1.
+		l.accept("=")
 		sym := l.input[l.start:l.pos]
 		item, ok := arithmeticItemsBySymbol[sym]
 		if !ok {
